@@ -11,6 +11,7 @@ CONSTANTS
   TickSteps = {1, 3}
   MaxTracked = 4
   SweepCap = 0
+  IndexMode = "exact"
   Depth = 5
 INVARIANT Emit
 CHECK_DEADLOCK FALSE
